@@ -22,7 +22,7 @@ IN_MODEL = "/S/cwd/in.skops"
 def dst_model(case):
     import posixpath
     if case["output"] is not None:
-        return posixpath.normpath(posixpath.join("/S/cwd", case["output"].replace("{S}", "/S")))
+        return posixpath.normpath(posixpath.join("/S/cwd", case["output"].replace("{S}", "/S").replace("{X}", "/X")))
     return IN_MODEL if case["inplace"] else None
 
 
@@ -59,6 +59,9 @@ def make_cases(R):
         for tmp in ("same", "xfs"):
             cases.append({"proto": "0", "okind": okind, "output": out, "inplace": False, "tmp": tmp,
                           "obj": "dictarr", "pre_dst": False, "flags": ["-v"]})
+    for tmp in ("same", "xfs"):   # destination itself on the other file system
+        cases.append({"proto": "1", "okind": "absolute-other-fs", "output": "{X}/tmp/out.skops", "inplace": False, "tmp": tmp,
+                      "obj": "nested", "pre_dst": tmp == "same", "flags": ["-v"]})
     cases.append({"proto": "1", "okind": "bare", "output": "quiet.skops", "inplace": False, "tmp": "xfs",
                   "obj": "dictarr", "pre_dst": True, "flags": []})
     if R.tier == "thorough":
@@ -107,7 +110,7 @@ def implementation_text(case, res):
 
 def coq_case(case, res):
     pr = {"0": "Older", "1": "Older", "cur": "Same", "cur+1": "Newer"}[case["proto"]]
-    out = case["output"].replace("{S}", "/S") if case["output"] is not None else None
+    out = case["output"].replace("{S}", "/S").replace("{X}", "/X") if case["output"] is not None else None
     return (f"(({K.cfs(res['initial'])}, {pr}, {K.copt(out, C.cstr)}, {C.cbool(case['inplace'])}, "
             f"{C.cbool(case['tmp'] == 'same')}), {C.cstr(implementation_text(case, res))})")
 
@@ -169,7 +172,8 @@ def crash_specs(res, full):
     n = len(res["timeline"])
     specs = [{"at_event": k} for k in range(n)]
     fracs = (0.0, 0.25, 0.5, 0.999) if full else (0.0, 0.5, 0.999)
-    for j in range(3):
+    nwrites = sum(1 for e in res["timeline"] if e["ev"].startswith(("W ", "other:open(")))
+    for j in range(nwrites):
         for f in fracs:
             specs.append({"in_write": j, "frac": f})
     return specs
